@@ -425,6 +425,10 @@ def r5_dispatch_table(chk, prog):
                     v = it.locals[x['ref']['name']]
                     if v in members:
                         return v
+            for x in walk(expr):
+                if x.get('k') in CALL_KINDS and (x.get('callee') or '').split('::')[-1] in ('front', 'back') and \
+                        mentions_field(x, 'mArgGroups'):
+                    return members[0] if (x.get('callee') or '').endswith('front') else members[-1]
             raise Unsupported('member handler not identifiable at line %s' % expr.get('l'))
 
         cur = {'i': 0}
@@ -514,6 +518,7 @@ def r5_dispatch_table(chk, prog):
                'endValueList': cb_end_list, 'valueListOpen': lambda it, c: int(st['open'][member_in(it, children(c)[0])]),
                'usagePrinted': lambda it, c: 0, 'ArgumentKey': lambda it, c: 7,
                'key': lambda it, c: 7, 'begin': lambda it, c: 0, 'end': lambda it, c: len(words),
+               'front': lambda it, c: members[0], 'back': lambda it, c: members[-1],
                'operator++': cb_inc, '<range>': lambda it, rng: list(members), '<atom>': cb_atom, '<store>': cb_store,
                '<loops>': True}
         it = Interp(f, {}, callbacks=cbs, prog=prog)
